@@ -9,6 +9,7 @@ package c19
 import (
 	"encoding/binary"
 	"fmt"
+	"io"
 	"os"
 	"strconv"
 	"strings"
@@ -190,6 +191,103 @@ func shardStress(seed uint64, index string, ms int) string {
 // older than what the cache holds, so the cache entry is out of order until a reader sorts it)
 // while several readers read the series: every read must hold every point acknowledged
 // before it began, once.
+// seriesStress: four writers creating new series all the time on an index whose log file is
+// turned into an index file every few writes (tsi1 with a 256-byte log), or on the in-memory
+// index: every acknowledged series is listed under its measurement and found by its tag,
+// at rest and after a reopen.
+func seriesStress(seed uint64, index string, ms int) string {
+	dir, _ := os.MkdirTemp(shardh.WorkDir("stress"), "s-")
+	defer os.RemoveAll(dir)
+	if index == "tsi1" {
+		index = "tsi1c"
+	}
+	h, err := shardh.New(dir, index)
+	if err != nil {
+		return "err:" + strings.ReplaceAll(err.Error(), " ", "_")
+	}
+	defer h.Close()
+	const writers = 4
+	var acked [writers]int64 // series i=0..acked-1 of writer w were acknowledged
+	stop := make(chan struct{})
+	var wg sync.WaitGroup
+	var failure atomic.Value
+	for w := 0; w < writers; w++ {
+		wg.Add(1)
+		go func(w int) {
+			defer wg.Done()
+			for r := uint64(0); ; r++ {
+				select {
+				case <-stop:
+					return
+				default:
+				}
+				n := 1 + int(seed+r+uint64(w))%3
+				var pts []models.Point
+				for k := 0; k < n; k++ {
+					tags := models.NewTags(map[string]string{"w": fmt.Sprint(w), "i": fmt.Sprint(acked[w] + int64(k))})
+					p, _ := models.NewPoint("s", tags, models.Fields{"v": int64(k)}, time.Unix(0, base))
+					pts = append(pts, p)
+				}
+				if err := h.Store.WriteToShard(shardh.ShardID, pts); err != nil {
+					failure.CompareAndSwap(nil, "write failed: "+err.Error())
+					return
+				}
+				atomic.AddInt64(&acked[w], int64(n))
+			}
+		}(w)
+	}
+	time.Sleep(time.Duration(ms) * time.Millisecond)
+	close(stop)
+	done := make(chan struct{})
+	go func() { wg.Wait(); close(done) }()
+	select {
+	case <-done:
+	case <-time.After(60 * time.Second):
+		return "DEADLOCK: series writers did not stop"
+	}
+	if e := failure.Load(); e != nil {
+		return "SERIES " + strings.ReplaceAll(e.(string), " ", "_")
+	}
+	check := func(when string) string {
+		listed := map[string]bool{}
+		for _, s := range strings.Split(h.Series(), ";") {
+			listed[s] = true
+		}
+		for w := 0; w < writers; w++ {
+			byTag := map[string]bool{}
+			for _, s := range strings.Split(h.SeriesBy("s", "w", "eq", fmt.Sprint(w)), ";") {
+				byTag[s] = true
+			}
+			for i := int64(0); i < acked[w]; i++ {
+				key := fmt.Sprintf("s|i=%d,w=%d", i, w)
+				if !listed[key] {
+					return fmt.Sprintf("SERIES %s:_acknowledged_series_%s_is_not_listed_(%d_of_writer_%d_acknowledged)", when, key, acked[w], w)
+				}
+				if !byTag[key] {
+					return fmt.Sprintf("SERIES %s:_acknowledged_series_%s_is_not_found_by_its_tag", when, key)
+				}
+			}
+		}
+		return ""
+	}
+	if e := check("at_rest"); e != "" {
+		return e
+	}
+	if r := h.IndexCompact(); r != "ok" {
+		return "SERIES index_compaction:_" + r
+	}
+	if e := check("after_index_compaction"); e != "" {
+		return e
+	}
+	if err := h.Reopen(); err != nil {
+		return "SERIES reopen:_" + strings.ReplaceAll(err.Error(), " ", "_")
+	}
+	if e := check("after_reopen"); e != "" {
+		return e
+	}
+	return "ok"
+}
+
 func oooStress(seed uint64, index string, ms int) string {
 	dir, _ := os.MkdirTemp(shardh.WorkDir("stress"), "s-")
 	defer os.RemoveAll(dir)
@@ -582,6 +680,12 @@ func hhStress(seed uint64, ms int) string {
 	var drainErr atomic.Value
 	drain := func() bool {
 		b, err := q.Current()
+		if err == io.EOF {
+			// what the sender does at the end of the head segment: drop it when it is
+			// drained and another one follows, and look again
+			q.SkipDrainedHead()
+			b, err = q.Current()
+		}
 		if err != nil {
 			return false
 		}
@@ -773,6 +877,8 @@ func runOp(op string) (out string) {
 			rounds = int(i64(f[3]))
 		}
 		return fieldRace(uint64(i64(f[1])), f[2], rounds)
+	case "stress-series":
+		return seriesStress(uint64(i64(f[1])), f[2], int(i64(f[3])))
 	case "stress-ooo":
 		return oooStress(uint64(i64(f[1])), f[2], int(i64(f[3])))
 	case "stress-newfields":
@@ -806,6 +912,7 @@ func (Prop) Generate(r *fw.Rand, tier string) []fw.Case {
 		cases = append(cases, fw.Case{Ops: []string{fmt.Sprintf("stress-shard %d %s %d", r.Intn(1000), idx, ms)}, Tags: []string{"shard"}})
 		cases = append(cases, fw.Case{Ops: []string{fmt.Sprintf("stress-field %d %s %d", r.Intn(1000), idx, ms*2)}, Tags: []string{"field"}})
 		cases = append(cases, fw.Case{Ops: []string{fmt.Sprintf("stress-ooo %d %s %d", r.Intn(1000), idx, ms)}, Tags: []string{"ooo"}})
+		cases = append(cases, fw.Case{Ops: []string{fmt.Sprintf("stress-series %d %s %d", r.Intn(1000), idx, ms)}, Tags: []string{"series"}})
 		cases = append(cases, fw.Case{Ops: []string{fmt.Sprintf("stress-newfields %d %s %d", r.Intn(1000), idx, ms/10)}, Tags: []string{"newfields"}})
 		cases = append(cases, fw.Case{Ops: []string{fmt.Sprintf("stress-hh %d %d", r.Intn(500)*2, ms)}, Tags: []string{"hh"}})
 		cases = append(cases, fw.Case{Ops: []string{fmt.Sprintf("stress-hh %d %d", r.Intn(500)*2+1, ms)}, Tags: []string{"hh-bursty"}})
@@ -816,7 +923,7 @@ func (Prop) Generate(r *fw.Rand, tier string) []fw.Case {
 }
 
 func (Prop) Describe(cfg *fw.Config) {
-	cfg.Rule = "stress scenarios on real components: (shard) 4 writers with their own series, a snapshotter, a compactor of all files, a writer+deleter of another measurement and 2 readers on one shard for 0.4 s (quick) / 1.5 s (thorough), inmem and tsi1: every read must hold all points acknowledged before it began, and at rest and after a reopen all acknowledged points; (field) 800 (quick) / 3000 (thorough) rounds of 4 goroutines writing one new field with four different types: exactly one is accepted and exactly its value is readable; (hh) 4 appenders and a drainer on a hinted-handoff queue with 4 KB segments: every acknowledged block is drained once, in per-appender order; (hhsend) 4 appenders against the real sender (NodeProcessor.SendWrite in a loop) with a recording shard writer: every acknowledged block is delivered, in per-appender order, none skipped; (ooo) one writer sending a series in descending time order against four readers: every read holds every point acknowledged before it began, once; (newfields) rounds of eight goroutines writing different new fields of one measurement at once: every acknowledged write is readable, also after a restart; (hh, odd seeds) pausing appenders on 700-byte segments; (hhcatchup) the real sender, caught up with the appenders, meets a burst of eight appends when it exhausts the head segment (three-block segments): every accepted block is handed out once; a watchdog reports workers that do not stop; thorough tier: the harness is built with the Go race detector (a report ends the run); non-trivial = every scenario; distinct = distinct op list"
+	cfg.Rule = "stress scenarios on real components: (shard) 4 writers with their own series, a snapshotter, a compactor of all files, a writer+deleter of another measurement and 2 readers on one shard for 0.4 s (quick) / 1.5 s (thorough), inmem and tsi1: every read must hold all points acknowledged before it began, and at rest and after a reopen all acknowledged points; (field) 800 (quick) / 3000 (thorough) rounds of 4 goroutines writing one new field with four different types: exactly one is accepted and exactly its value is readable; (hh) 4 appenders and a drainer on a hinted-handoff queue with 4 KB segments: every acknowledged block is drained once, in per-appender order; (hhsend) 4 appenders against the real sender (NodeProcessor.SendWrite in a loop) with a recording shard writer: every acknowledged block is delivered, in per-appender order, none skipped; (ooo) one writer sending a series in descending time order against four readers: every read holds every point acknowledged before it began, once; (newfields) rounds of eight goroutines writing different new fields of one measurement at once: every acknowledged write is readable, also after a restart; (series) four writers creating new series all the time on tsi1 with a 256-byte log file (so that the log is swapped and compacted every few writes) and on inmem: every acknowledged series is listed and found by its tag at rest, after the index compactions and after a reopen; (hh, odd seeds) pausing appenders on 700-byte segments; (hhcatchup) the real sender, caught up with the appenders, meets a burst of eight appends when it exhausts the head segment (three-block segments): every accepted block is handed out once; a watchdog reports workers that do not stop; thorough tier: the harness is built with the Go race detector (a report ends the run); non-trivial = every scenario; distinct = distinct op list"
 }
 
 func (Prop) Trivial(c fw.Case, out []string) bool { return false }
